@@ -216,3 +216,65 @@ PROPS["C18"] = {
         "thorough": {"histories": 100000},
     },
 }
+
+PROPS["C04"] = {
+    "level": "exploration",
+    "rule": "case = one random logical tree (0-70 objects, names incl. exceptional upper-casing and supplementary characters, sizes "
+            "from the boundary set, CLSIDs/state/times) written by the independent synthesiser under a random legal layout (sector "
+            "roles permuted with FREE sectors in between, fragmented non-monotone chains, directory entries in random slots with gaps, "
+            "textbook red-black sibling trees, permuted mini sectors, FAT sectors anywhere, one > 109-FAT-sector DIFAT-chain image per "
+            "shard); must pass the synth/refparse self-check (else harness error), then open strict+permissive with dump == tree and "
+            "case-variant lookups, then a 10-30 step history with the C01+C02+C03 monitors. non-trivial = image with >= 3 objects "
+            "accepted in both modes; distinct = FNV-64 of the image bytes",
+    "assumptions": COMMON_ASSUMPTIONS + ["synth.rs writes only spec-valid layouts (enforced per image by refparse's rule set and logical decode)"],
+    "checked_share": 0.6,
+    "quick": {"budget_s": 20},
+    "thorough": {"budget_s": 300},
+    "floors": {
+        "quick": {"opened.Strict": 10000, "opened.Permissive": 10000, "layout.red_nodes": 5000, "layout.dir_gaps": 5000, "layout.fragmented_chain": 3000,
+                  "layout.out_of_order_fat": 5000, "layout.free_sectors_inside": 2000, "layout.difat_chain": 8, "mutated_afterwards": 8000},
+        "thorough": {"opened.Strict": 100000, "layout.difat_chain": 50},
+    },
+}
+
+PROPS["C05"] = {
+    "level": "exploration",
+    "rule": "case = one hostile byte string: a valid base image (library-written or synthesised foreign layout, pool of 24 per shard) with "
+            "1-4 structure-aware field corruptions (every header field, DIFAT/FAT/MiniFAT cells -> self/other chain/out of range/special "
+            "values, directory name/type/colour/links/start/size), or truncated/extended/bit-flipped, or a repo fuzz seed, or random "
+            "bytes behind a valid header, or a DIFAT amplification input; opened permissive and strict, then the read-only battery (walk, "
+            "listings, lookups, every stream read in odd chunks, fill_buf, read_to_end, extreme seeks). Monitors: panic hook, CPU-time "
+            "watchdog (10 s/case, isolated 10x confirmation), I/O step budget per API call, peak heap <= 8 MiB + 4096*len. "
+            "non-trivial = input that got past the header check; distinct = FNV-64 of the input",
+    "assumptions": COMMON_ASSUMPTIONS + [
+        "'never loops forever' is restated as bounded progress: CPU budget 10 s (unchanged tree: < 10 ms) and <= 64*(len/64+8)^2 underlying I/O calls per API call",
+        "'memory proportional to the input' is restated as peak heap <= 8 MiB + 4096 x input length (the format lets a 4-byte DIFAT cell name a whole FAT sector)",
+    ],
+    "checked_share": 0.6,
+    "cpu_budget_s": 10,
+    "quick": {"budget_s": 20},
+    "thorough": {"budget_s": 300},
+    "floors": {
+        "quick": {"evaluations": 200000, "accepted.Permissive": 50000, "accepted.Strict": 20000, "rejected_after_header": 200000, "streams_opened": 200000,
+                  "input.amplification": 3000, "input.repo_seed": 5000, "mutation.FatCell": 10000, "mutation.MiniFatCell": 10000, "mutation.DirStart": 10000, "mutation.size": 10000},
+        "thorough": {"evaluations": 2000000},
+    },
+}
+
+PROPS["C11"] = {
+    "level": "exploration",
+    "rule": "case = one damaged input (C05's corruptor with emphasis on what permissive open never walks: stream start sectors/sizes, "
+            "root mini stream, MiniFAT/FAT cells, sibling links) that permissive open ACCEPTS, followed by 3-12 mutating calls "
+            "(create, write 0..70000 bytes, set_len to boundary sizes, overwrite, remove, remove_storage_all, metadata, flush, reads). "
+            "Monitors: panic hook with location (handles are leaked on unwind so that the first panic is the one reported), CPU-time "
+            "watchdog 5 s/case with isolated 10x confirmation, allocation cap. non-trivial = accepted input; distinct = FNV-64 of the input",
+    "assumptions": COMMON_ASSUMPTIONS + ["'never hangs' is restated as a CPU budget of 5 s per case (unchanged tree: < 10 ms), confirmed at 50 s in isolation"],
+    "checked_share": 0.6,
+    "cpu_budget_s": 5,
+    "quick": {"budget_s": 22},
+    "thorough": {"budget_s": 300},
+    "floors": {
+        "quick": {"accepted_by_permissive_open": 300000, "op.remove_stream": 100000, "mutation.DirStart": 50000, "mutation.MiniFatCell": 50000, "mutation.FatCell": 50000, "mutation.size": 50000},
+        "thorough": {"accepted_by_permissive_open": 3000000},
+    },
+}
